@@ -72,6 +72,8 @@ def ops(values=(1, 2)):
         out.append(["setkw", e, {"b": 1}])
         out.append(["update", e, {"a": 2, "b": 2}])
     # an attribute that is itself called 'sid' (e.g. a record read from another Sid and written back)
+    out.append(["create", "K1", None])
+    out.append(["create", "K1", {"a": 1}])
     out.append(["set", "F1", {"sid": "hamlet/other"}])
     out.append(["update", "V1", {"sid": "x", "a": 5}])
     return out
